@@ -154,6 +154,29 @@ SPECIAL = [
 ]
 
 
+def target_matrix():
+    """every target form under every binder: valid Python the extractor must survive"""
+    forms = ['a', 'o.a', 'o[0]', 'a, b', '(a, b)', '[a, b]', '*a, b', 'a, *b', '*(a, b), c', '*[a, b], c', '[a, *b], c',
+             '(a, (b, c)), d', '[a, [b, *c]], d', 'o.a, o[0], e', '*o.a, b', '(a, o[b]), *c']
+    out = []
+    for k, t in enumerate(forms):
+        progs = [
+            ('assign', 'o = {}\n%s = o\nprint(o)\n' % t),
+            ('for', 'o = {}\nfor %s in o:\n    print(o)\n' % t),
+            ('with', 'o = {}\nwith o as %s:\n    print(o)\n' % (t if ',' not in t or t.startswith(('(', '[')) else '(' + t + ')')),
+            ('comp', 'o = {}\nprint([o for %s in o])\n' % t),
+            ('func-for', 'def f(o):\n    for %s in o:\n        pass\n    return o\n' % t),
+        ]
+        for b, src in progs:
+            try:
+                compile(src, '<m>', 'exec')
+            except SyntaxError:
+                continue
+            lines = src.split('\n')
+            out.append(('target-%s-%d' % (b, k), src, (len(lines) - 1, len(lines[-2]) - 1)))
+    return out
+
+
 def classify_failure(what, label):
     if 'RecursionError' in what and 'chain' in label:
         return 'C08-long-assignment-chain'
@@ -255,7 +278,7 @@ def run(check):
 
     rng = check.rng
     # 1. special shapes
-    for label, src, pos in SPECIAL:
+    for label, src, pos in SPECIAL + target_matrix():
         one(label, src, [pos])
     one('chain-400', 'a0 = 1\n' + ''.join('a%d = a%d\n' % (i + 1, i) for i in range(400)) + 'a400.\n', [(402, 5)])
     # 2. files: every name end / after-dot position sampled, plus random positions
